@@ -217,8 +217,10 @@ impl<const P: usize> TKey<P> {
 
 impl<const P: usize> Drop for TKey<P> {
     fn drop(&mut self) {
-        fault_tick_drop(Cb::KDrop);
+        // ledger first: a destructor that panics has still run (the value counts as dropped),
+        // so a later second drop of the same slot must be seen as a double drop
         ledger::on_drop(self.id, self.magic, KIND_KEY);
+        fault_tick_drop(Cb::KDrop);
     }
 }
 #[inline]
@@ -344,8 +346,8 @@ impl<const P: usize> TVal<P> {
 }
 impl<const P: usize> Drop for TVal<P> {
     fn drop(&mut self) {
-        fault_tick_drop(Cb::VDrop);
         ledger::on_drop(self.id, self.magic, KIND_VAL);
+        fault_tick_drop(Cb::VDrop);
     }
 }
 impl<const P: usize> Clone for TVal<P> {
@@ -449,4 +451,118 @@ pub fn z_counts() -> (u64, u64) {
 pub fn z_live() -> i64 {
     let (n, d) = z_counts();
     n as i64 - d as i64
+}
+
+// ---------------------------------------------------------------------------------------------
+// heap-owning key / value with fault ticks but WITHOUT ledger or magic guards: a double drop,
+// a drop of an uninitialised slot or a read of a dead slot is a real double free / wild free /
+// use-after-free, which is what AddressSanitizer, valgrind and Miri are there to see.
+
+pub struct HKey {
+    pub class: u32,
+    pub tag: u32,
+    heap: Box<u64>,
+}
+impl HKey {
+    pub fn new(class: u32, tag: u32) -> Self {
+        HKey { class, tag, heap: Box::new(u64::from(class) << 32 | u64::from(tag)) }
+    }
+    pub fn intact(&self) -> bool {
+        *self.heap == u64::from(self.class) << 32 | u64::from(self.tag)
+    }
+}
+impl Drop for HKey {
+    fn drop(&mut self) {
+        fault::tick(Cb::KDrop);
+    }
+}
+impl Clone for HKey {
+    fn clone(&self) -> Self {
+        fault::tick(Cb::KClone);
+        HKey { class: self.class, tag: self.tag, heap: Box::new(*self.heap) }
+    }
+}
+impl PartialEq for HKey {
+    fn eq(&self, other: &Self) -> bool {
+        fault::tick(Cb::KEq);
+        // touch the heap block of both operands: a dead operand is a use-after-free
+        let t = (*self.heap >> 32) as u32 == (*other.heap >> 32) as u32;
+        adv_decide(t, self as *const _ as u64, other as *const _ as u64)
+    }
+}
+impl Eq for HKey {}
+impl Borrow<Class> for HKey {
+    fn borrow(&self) -> &Class {
+        fault::tick(Cb::Borrow);
+        let _ = std::hint::black_box(*self.heap);
+        // SAFETY: Class is repr(transparent) over u32
+        unsafe { &*(&self.class as *const u32).cast::<Class>() }
+    }
+}
+impl fmt::Debug for HKey {
+    fn fmt(&self, f: &mut fmt::Formatter<'_>) -> fmt::Result {
+        fault::tick(Cb::Fmt);
+        write!(f, "K{}#{}", (*self.heap >> 32) as u32, self.tag)
+    }
+}
+impl fmt::Display for HKey {
+    fn fmt(&self, f: &mut fmt::Formatter<'_>) -> fmt::Result {
+        fault::tick(Cb::Fmt);
+        write!(f, "k{}.{}", (*self.heap >> 32) as u32, self.tag)
+    }
+}
+
+pub struct HVal {
+    pub payload: u32,
+    heap: Vec<u32>,
+}
+impl HVal {
+    pub fn new(payload: u32) -> Self {
+        HVal { payload, heap: vec![payload; 3] }
+    }
+    pub fn intact(&self) -> bool {
+        self.heap.len() == 3 && self.heap.iter().all(|x| *x == self.payload)
+    }
+    pub fn set(&mut self, p: u32) {
+        self.payload = p;
+        for x in &mut self.heap {
+            *x = p;
+        }
+    }
+}
+impl Drop for HVal {
+    fn drop(&mut self) {
+        fault::tick(Cb::VDrop);
+    }
+}
+impl Clone for HVal {
+    fn clone(&self) -> Self {
+        fault::tick(Cb::VClone);
+        HVal { payload: self.payload, heap: self.heap.clone() }
+    }
+}
+impl PartialEq for HVal {
+    fn eq(&self, other: &Self) -> bool {
+        fault::tick(Cb::VEq);
+        self.heap == other.heap
+    }
+}
+impl Eq for HVal {}
+impl Default for HVal {
+    fn default() -> Self {
+        fault::tick(Cb::VDefault);
+        HVal::new(DEFAULT_PAYLOAD)
+    }
+}
+impl fmt::Debug for HVal {
+    fn fmt(&self, f: &mut fmt::Formatter<'_>) -> fmt::Result {
+        fault::tick(Cb::Fmt);
+        write!(f, "V{}", self.heap[0])
+    }
+}
+impl fmt::Display for HVal {
+    fn fmt(&self, f: &mut fmt::Formatter<'_>) -> fmt::Result {
+        fault::tick(Cb::Fmt);
+        write!(f, "v{}", self.heap[0])
+    }
 }
